@@ -343,40 +343,42 @@ func (wg *WaitGroup) Go(f func()) {
 // ---------------- Cond ----------------
 
 type Cond struct {
-	L       Locker
-	waiters int
-	signals int
+	L Locker
+	// ticket model of the runtime's notify list: a waiter takes the next ticket;
+	// tickets below notify have been notified. A waiter that arrives after a
+	// Broadcast can therefore never consume a wake-up meant for an earlier one
+	// (a counter of "signals" that any waiter may take loses wake-ups: a false
+	// deadlock on correct code, found with a barrier built on one Cond).
+	wait   uint64
+	notify uint64
 }
 
 func NewCond(l Locker) *Cond { return &Cond{L: l} }
 
 //go:norace
-func (c *Cond) enq() { c.waiters++ }
+func (c *Cond) enq() uint64 {
+	t := c.wait
+	c.wait++
+	return t
+}
 
 //go:norace
-func (c *Cond) take() bool {
-	if c.signals > 0 {
-		c.signals--
-		c.waiters--
-		return true
-	}
-	return false
-}
+func (c *Cond) notified(t uint64) bool { return t < c.notify }
 
 //go:norace
 func (c *Cond) sig(all bool) {
 	if all {
-		c.signals = c.waiters
-	} else if c.signals < c.waiters {
-		c.signals++
+		c.notify = c.wait
+	} else if c.notify < c.wait {
+		c.notify++
 	}
 }
 
 func (c *Cond) Wait() {
 	simrt.NoteSync()
-	c.enq()
+	t := c.enq()
 	c.L.Unlock()
-	for !c.take() {
+	for !c.notified(t) {
 		simrt.Block(unsafe.Pointer(c))
 	}
 	c.L.Lock()
